@@ -11,6 +11,8 @@ CONSTANTS InitPen = 5
           Incs = {0, 1, 5}
           Targets = {1, 7}
           EmitMod = 2
-INVARIANTS C02_CounterNeverDecreases C01_StrictlyIncreasing C01_SeekIsSuffix
-           StepwiseEqualsFunctional BoundedOutput OnlyDoneIsFinal
+          MaxSeeks = 1
+          Kinds = {"f"}
+INVARIANTS C02_CounterNeverDecreases C01_StrictlyIncreasing C01_SeekIsSuffix C01_FollowsFullStream
+           C01_FollowsFullStream BoundedOutput
 CHECK_DEADLOCK FALSE
